@@ -192,7 +192,7 @@ func verifC18FaultySources(t *testing.T, name string, seed int64, dir string) (p
 		}
 		paths = append(paths, p)
 	}
-	for _, p := range []string{"testdata/v0.h5", "testdata/with_groups.h5"} {
+	for _, p := range []string{"testdata/v0.h5"} {
 		if _, err := verifC18Dump(p); err != nil {
 			t.Logf("%s: skipping %s: %v", name, p, err)
 			continue
@@ -229,12 +229,22 @@ func verifC18FlipOffsets(whole []byte) []int {
 	return out
 }
 
-// verifC18Variants lists the faulty variants of all sources: every cut (stride 1 up to
-// the end of the file for the light outcome) and the signature flips.
+// verifC18Variants lists the faulty variants of all sources: every cut and the signature
+// flips. VERIF_C18_SWEEP=0 / 1 restricts the cuts to the even / odd lengths: the driver
+// gives the processes of one run (one per GOMAXPROCS value) alternating halves, so that a
+// run tries every length and each process at least every second one (the smallest unit read
+// by the library is 2 bytes; the message prefixes are 4, 6 and 8 bytes). Unset: every length.
 func verifC18Variants(contents [][]byte) []verifC18Variant {
+	parity := -1
+	if v := os.Getenv("VERIF_C18_SWEEP"); v == "0" || v == "1" {
+		parity = int(v[0] - '0')
+	}
 	var vs []verifC18Variant
 	for s, whole := range contents {
 		for n := 0; n < len(whole); n++ {
+			if parity >= 0 && n%2 != parity {
+				continue
+			}
 			vs = append(vs, verifC18Variant{src: s, cut: n, flip: -1})
 		}
 		for _, off := range verifC18FlipOffsets(whole) {
@@ -343,7 +353,7 @@ func TestVerifC18_FaultyOpensBesideHealthyReaders(t *testing.T) {
 	// Concurrent phase. Goroutines 0..nReaders-1 read healthy files, the others open
 	// faulty copies (each through a scratch file of its own) until the readers are done.
 	const nReaders, nFaulty = 6, 4
-	reps := 3 + iters/2
+	reps := 2 + iters/4
 	var readersLeft atomic.Int64
 	readersLeft.Store(nReaders)
 	var faultyOpens atomic.Int64
@@ -430,5 +440,5 @@ func TestVerifC18_FaultyOpensBesideHealthyReaders(t *testing.T) {
 	if n, ok := verifC18Settle(before); !ok {
 		t.Errorf("[goroutine-leak] %s seed=%d: %d goroutines before, %d after all files were closed", name, seed, before, n)
 	}
-	t.Logf("%s seed=%d sources=%d variants=%d outcomeClasses=%d poolProbes=%d readers=%d x%d x%d faultyGoroutines=%d faultyOpens=%d", name, seed, len(paths), len(all), len(classes), len(all)+len(paths)+1, nReaders, reps, len(paths), nFaulty, faultyOpens.Load())
+	t.Logf("%s seed=%d sweep=%q sources=%d variants=%d outcomeClasses=%d poolProbes=%d readers=%d x%d x%d faultyGoroutines=%d faultyOpens=%d", name, seed, os.Getenv("VERIF_C18_SWEEP"), len(paths), len(all), len(classes), len(all)+len(paths)+1, nReaders, reps, len(paths), nFaulty, faultyOpens.Load())
 }
